@@ -45,7 +45,9 @@ def usable(crys, chem, k, closest=0, max_jumps=40):
     sl, jn, cut = nw.network(crys, chem, k, closest)
     if not jn or sum(len(j) for j in jn) > max_jumps:
         return False
-    return nw.gf_ok(crys, chem, sl, jn)
+    if not nw.gf_ok(crys, chem, sl, jn):
+        return False
+    return nvstars_estimate(crys, chem, k, 1) <= NV_CAP
 
 
 def site_vector_basis(crys, chem=0):
@@ -56,6 +58,38 @@ def site_vector_basis(crys, chem=0):
 NO_OS = ["SC", "FCC", "BCC", "HCP", "diamond", "B2o", "L12", "omega", "omegaB", "square", "tria", "honeycomb", "tet2w", "sq2w", "sq3", "sq3B"]
 # several Wyckoff sets on the vacancy sublattice (drawn more often: most defects of the Lij family need them)
 MULTIW = ["omega", "omegaB", "romega", "romegaB", "tet2w", "sq2w", "sq3", "sq3B"]
+
+
+def nvstars_estimate(crys, chem, k, Nthermo):
+    """cheap upper estimate of the number of vector stars of the kinetic star set (range Nthermo+1): BFS over vacancy
+    positions, states * dim / |G|.  Used only as a cost cap: the constructor cleans dense [Nv, Nv, n] arrays element by
+    element, 100 vector stars cost seconds, 300 cost minutes."""
+    sl, jn, cut = nw.network(crys, chem, k, 0)
+    basis = [np.array(u) for u in crys.basis[chem]]
+    nb = len(basis)
+    hops = {}
+    for jl in jn:
+        for (i, j), dx in jl:
+            R = tuple(int(x) for x in np.round(crys.invlatt @ dx - basis[j] + basis[i]))
+            hops.setdefault(i, set()).add((j, R))
+    total = 0
+    for i0 in range(nb):
+        seen = {(i0, (0,) * crys.dim)}
+        frontier = set(seen)
+        for _ in range(Nthermo + 1):
+            new = set()
+            for (j, R) in frontier:
+                for (j2, dR) in hops.get(j, ()):
+                    s2 = (j2, tuple(a + b for a, b in zip(R, dR)))
+                    if s2 not in seen:
+                        seen.add(s2)
+                        new.add(s2)
+            frontier = new
+        total += len(seen)
+    return total * crys.dim / float(len(crys.G))
+
+
+NV_CAP = 110
 
 
 @st.composite
@@ -94,7 +128,14 @@ def setups(draw, dim=None, nthermo=(1, 2), max_mobile=3, p_catalogue=0.5, names=
         ks = ks_of(rec["name"])
     k = ks[0] if (len(ks) == 1 or draw(st.floats(0, 1)) < 0.8) else ks[1]
     N = draw(st.sampled_from(list(nthermo)))
+    # cost cap (not a property of the library): lower the range, then the shell, until the estimate fits
+    while N > min(nthermo) and nvstars_estimate(crys, 0, k, N) > NV_CAP:
+        N -= 1
+    if nvstars_estimate(crys, 0, k, N) > NV_CAP and k != ks[0]:
+        k = ks[0]
     out = {"recipe": rec, "chem": 0, "k": k, "closest": 0, "Nthermo": N}
+    if nvstars_estimate(crys, 0, k, N) > NV_CAP:
+        out["costly"] = True
     if redrawn:
         out["redrawn"] = redrawn
     return out
